@@ -496,10 +496,13 @@ where
 
     while (right - left).abs() > two * tol {
         let x_half = (left + right) / two;
-        let r = tol * two.powf(n_max + n_0 - N::from_i32(j).unwrap()) - (right - left) / two;
+        // `left` is the end with the negative function value, so it lies above `right` for a decreasing
+        // function: the width of the bracket is |right - left|
+        let width = (right - left).abs();
+        let r = tol * two.powf(n_max + n_0 - N::from_i32(j).unwrap()) - width / two;
         let x_f = (f_right * left - f_left * right) / (f_right - f_left);
         let sigma = (x_half - x_f) / (x_half - x_f).abs();
-        let delta = k_1 * (right - left).powf(k_2);
+        let delta = k_1 * width.powf(k_2);
         let x_t = if delta <= (x_half - x_f).abs() {
             x_f + sigma * delta
         } else {
